@@ -409,8 +409,11 @@ class Lower:
         if n.get('isArrow'):
             b = self.deref(b)
         name = n['name']
-        # member of a library pair: first/second
-        return self.member(b, name)
+        e = self.member(b, name)
+        fd = self.ast.byid.get(n.get('referencedMemberDecl'))
+        if fd is not None and fd.get('kind') == 'FieldDecl' and (qt(fd) or '').rstrip().endswith('&'):
+            return '(*%s)' % e       # reference member: stored as pointer
+        return e
 
     def ex_ArraySubscriptExpr(self, n):
         a, i = kids(n)
